@@ -56,6 +56,7 @@ func revertToManifest(kv *DB, mf *Manifest, idMap map[uint64]struct{}) error {
 		if _, ok := mf.Tables[id]; !ok {
 			kv.opt.Debugf("Table file %d not referenced in MANIFEST\n", id)
 			filename := table.NewFilename(id, kv.opt.Dir)
+			y.VerifIO("unlink", filename)
 			if err := os.Remove(filename); err != nil {
 				return y.Wrapf(err, "While removing table %d", id)
 			}
@@ -1460,6 +1461,7 @@ func (s *levelsController) runCompactDef(id, l int, cd compactDef) (err error) {
 			err = decErr
 		}
 	}()
+	y.VerifPoint("compact.built")
 	changeSet := buildChangeSet(&cd, newTables)
 
 	// We write to the manifest _before_ we delete files (and after we created files)
@@ -1485,9 +1487,11 @@ func (s *levelsController) runCompactDef(id, l int, cd compactDef) (err error) {
 
 	// See comment earlier in this function about the ordering of these ops, and the order in which
 	// we access levels when reading.
+	y.VerifPoint("compact.manifest")
 	if err := nextLevel.replaceTables(cd.bot, newTables); err != nil {
 		return err
 	}
+	y.VerifPoint("compact.replaced")
 	if err := thisLevel.deleteTables(cd.top); err != nil {
 		return err
 	}
@@ -1495,6 +1499,7 @@ func (s *levelsController) runCompactDef(id, l int, cd compactDef) (err error) {
 	// Note: For level 0, while doCompact is running, it is possible that new tables are added.
 	// However, the tables are added only to the end, so it is ok to just delete the first table.
 
+	y.VerifPoint("compact.deleted")
 	from := append(tablesToString(cd.top), tablesToString(cd.bot)...)
 	to := tablesToString(newTables)
 	if dur := time.Since(timeStart); dur > 2*time.Second {
@@ -1566,6 +1571,7 @@ func (s *levelsController) doCompact(id int, p compactionPriority) error {
 		}
 	}
 	defer s.cstatus.delete(cd) // Remove the ranges from compaction status.
+	y.VerifPoint("compact.picked")
 
 	span.SetAttributes(attribute.String("Compaction", fmt.Sprintf("%+v", cd)))
 	if err := s.runCompactDef(id, l, cd); err != nil {
